@@ -129,21 +129,27 @@ def entry(ctx):
     out = []
     contracts = dict(KC)
     contracts.update({"kmeans.accumulate_indices_means_vars": KM.spec_accumulate, "kmeans.reduce_indices_means_vars": KM.spec_reduce})
-    for kind, iso in (("numpy", False), ("dask", False), ("dask", True)):
+    for kind, iso in (("numpy", False), ("dask", False), ("dask", True), ("numpy-trained", False)):
         I = new_interp(contracts)
         I.isolated = iso
+        # "numpy-trained": a machine that carries whatever an earlier fit (on OTHER data) left in its public statistics
+        # attributes -- the result is a function of the centroids and of the data given NOW
+        trained = kind == "numpy-trained"
+        kind = "numpy" if trained else kind
 
-        def build(kind=kind):
+        def build(kind=kind, trained=trained):
             x = KM.mk_data(kind=kind)
             if kind == "dask":
                 x.chunks = RowChunks(KM.Nn)
-            return [KM.mk_kmeans(I), x], {}
+            extra = dict(zeroeth_order_statistics=input_arr("z_old", (KM.Kk,), dtype="int"), first_order_statistics=input_arr("f_old", (KM.Kk, KM.Dd)),
+                         average_min_distance=T.sym("amd_old")) if trained else {}
+            return [KM.mk_kmeans(I, **extra), x], {}
 
         def spec(ctx_, m, data):
             xs = KM.mk_data()
             return KM.spec_reduce(ctx_, [KM.spec_accumulate(ctx_, xs, m.fields["centroids_"])])
         cl = K.check_function(I, "kmeans.KMeansMachine.get_variances_and_weights_for_each_cluster", build, spec, KM.facts(),
-                              "C20.entry.%s%s" % (kind, ".isolated" if iso else ""), structural=False)
+                              "C20.entry.%s%s%s" % (kind, ".isolated" if iso else "", ".trained" if trained else ""), structural=False)
         out += cl
     return collapse(out, "C20.entry", "get_variances_and_weights_for_each_cluster == contract of the whole data set on the NumPy path and on "
                     "the Dask path for every row chunking, shared or isolated tasks; machine and data unchanged")
@@ -186,6 +192,9 @@ BOUNDED = [bounded("kmeans_repro.py", "offsets", "C20.native.offsets",
                    "offsets 0, 1e4, 1e8 (float cancellation is outside the real-arithmetic proof)")]
 GROUPS = [guard(dist), guard(predict), guard(varweights), guard(lemmas), guard(entry), guard(gmm_init)]
 SHARED = []
+# contracts of internal helpers (how the work is split between them is not part of the property): re-checked by inlining
+INTERNAL = [("C20.accumulate", "entry", ["kmeans.accumulate_indices_means_vars", "kmeans.reduce_indices_means_vars"]),
+            ("C20.reduce", "entry", ["kmeans.accumulate_indices_means_vars", "kmeans.reduce_indices_means_vars"])]
 REPLAY = [("C20.native", "kmeans_repro.py", "offsets", {}), ("C20", "kmeans_repro.py", "varweights", {}), ("C20.dist", "kmeans_repro.py", "dist", {}), ("C20.predict", "kmeans_repro.py", "dist", {}),
           ("C20.transform", "kmeans_repro.py", "dist", {})]
 TRUSTED = ["scipy cdist(A, B, 'sqeuclidean')[i,j] == Σ_d (A[i,d]-B[j,d])^2", "np.argmin returns an index attaining the minimum (lowest on ties)",
